@@ -689,3 +689,36 @@ def roadm_input_rule(ctx, rule, why):
     ctx.check(rule, f'{s_} losses of the walk', len(loss) == 1 and loss[0].lineno < adv[0].lineno, key(f, 'walk-loss'),
               f'the loss of every passive element crossed by the walk is not added (before moving on): {why}')
     return 3
+
+
+def end_trims_rule(ctx, rule, funcs, why):
+    """a route list that names its own source first and / or its own destination last is trimmed at BOTH ends independently: the
+    two tests are separate statements (not an if / elif chain), source against element 0, destination against element -1, each
+    popping its own end (and the hop flag of the same position where flags are kept)"""
+    n = 0
+    for f in funcs:
+        for lp in [x for x in walk_no_nested(f.node) if isinstance(x, ast.For) and isinstance(x.target, ast.Name)]:
+            r = lp.target.id
+            ends = {}
+            for st in lp.body:
+                if isinstance(st, ast.If):
+                    t = ast.unparse(st.test).replace(' ', '')
+                    for role, idx in (('source', '0'), ('destination', '-1')):
+                        if t == f'{r}.nodes_listand{r}.{role}=={r}.nodes_list[{idx}]':
+                            pops = sorted(ast.unparse(x.value) for x in st.body if isinstance(x, ast.Expr) and isinstance(x.value, ast.Call))
+                            ends[role] = (st, idx, pops)
+            if not ends:
+                continue
+            n += 1
+            ok = set(ends) == {'source', 'destination'} and all(not s_.orelse for s_, _, _ in ends.values())
+            if ok:
+                for role, (st, idx, pops) in ends.items():
+                    want = {f'{r}.nodes_list.pop({idx})'} | ({f'{r}.loose_list.pop({idx})'} if any('loose_list' in p_ for p_ in pops) else set())
+                    ok = ok and set(pops) == want
+                has_flags = 'loose_list' in ast.unparse(f.node)
+                if has_flags and f.name == 'correct_json_route_list':
+                    ok = ok and all(any('loose_list' in p_ for p_ in pops) for _, _, pops in ends.values())
+            ctx.check(rule, f'{site(f, lp)} end trims', ok, key(f, 'end-trims'),
+                      f'the source-first and destination-last entries of a route list are not trimmed by two independent tests, each popping '
+                      f'its own end: {why}')
+    return n
